@@ -193,6 +193,49 @@ def oracle(seed, tier):
     # ---- (a') twin worlds: two disjoint features with the same model type and different parameters; each twin alone in a fresh process must answer alike
     ct, nt = twins.twin_oracle(rng, 1000, wdir, viol)
     cases += ct; nontriv += nt
+    # ---- (c') the tag is written by the FEATURE, not by its models: stacks of squares with known depth ranges in which some features carry no models at all;
+    # the expected tag (by name) is that of the last feature whose range contains the depth - decided from the file alone
+    kinds3 = ["continental plate", "oceanic plate", "mantle layer"]
+    for mi in range(budget(tier, 8, 60)):
+        sq = [[-300e3, -300e3], [300e3, -300e3], [300e3, 300e3], [-300e3, 300e3]]
+        feats = []
+        for i in range(rng.randint(2, 4)):
+            lo = rng.choice([0, 20e3, 60e3]); hi = lo + rng.choice([50e3, 100e3, 200e3])
+            f = {"model": rng.choice(kinds3), "name": "m%d" % i, "tag": "t%d" % i, "coordinates": sq, "min depth": lo, "max depth": hi}
+            if rng.random() < 0.5:
+                f[rng.choice(["temperature models", "composition models"])] = [{"model": "uniform", "temperature": 700 + i}] if rng.random() < 0.5 else []
+                if "composition models" in f and f["composition models"]:
+                    f["composition models"] = [{"model": "uniform", "compositions": [i % 3]}]
+                if "temperature models" in f and not f["temperature models"]:
+                    del f["temperature models"]
+                if "composition models" in f and not f["composition models"]:
+                    del f["composition models"]
+            feats.append(f)
+        w = {"version": "1.1", "features": feats}
+        path = os.path.join(wdir, "marker_%d.wb" % mi)
+        json.dump(w, open(path, "w"))
+        qs = [([rng.uniform(-250e3, 250e3), rng.uniform(-250e3, 250e3)], rng.uniform(1e3, 280e3)) for _ in range(10)]
+        lines = ["world W %s -" % path, "tags W"] + [q3("W", [p[0], p[1], 1000e3 - d], d, [(4, 0, 0)]) for (p, d) in qs]
+        rc, out, err = proto.run_harness(lines)
+        if rc != 0 or len(out) != len(lines) or out[0] != "ok":
+            viol.append({"what": "library failed on a marker-stack world", "world_json": w, "stderr": err[-200:]}); continue
+        tags = out[1].split(" ", 2)[2].split("|") if len(out[1].split(" ", 2)) > 2 else []
+        for (p, d), o, cmd in zip(qs, out[2:], lines[2:]):
+            a = parse_answer(o)
+            cases += 1
+            if a[0] != "ok":
+                continue
+            cov = [f for f in feats if f["min depth"] + 1.0 <= d <= f["max depth"] - 1.0]
+            edge = any(abs(d - f["min depth"]) <= 1.0 or abs(d - f["max depth"]) <= 1.0 for f in feats)
+            if edge:
+                continue
+            nontriv += 1 if cov else 0
+            exp = cov[-1]["tag"] if cov else None
+            got = tags[int(a[1][0])] if a[1][0] >= 0 and int(a[1][0]) < len(tags) else None
+            if exp != got:
+                viol.append({"what": "tag is %r but the last feature whose depth range contains %.6g m is %r (%s; models: %s)" % (
+                    got, d, exp, cov[-1]["model"] if cov else "-", [k for k in (cov[-1] if cov else {}) if k.endswith("models")]), "world_json": w, "world": path, "cmd": cmd})
+                break
     # ---- (d) operation algebra on stacks of uniform models
     for si in range(budget(tier, 12, 150)):
         sph = rng.random() < 0.3
